@@ -84,6 +84,41 @@ func init() {
 			return nil
 		}
 	}
+	pathsim.BoolLocalDef = func(info *types.Info, id *ast.Ident) ast.Expr {
+		obj, ok := info.Uses[id].(*types.Var)
+		if !ok {
+			return nil
+		}
+		if b, ok := obj.Type().Underlying().(*types.Basic); !ok || b.Info()&types.IsBoolean == 0 {
+			return nil
+		}
+		def := derefStep(info, id)
+		if def == nil {
+			return nil
+		}
+		// only pure boolean formulas: comparisons, !, &&, ||, parentheses — not calls or comma-ok results
+		pure := true
+		ast.Inspect(def, func(n ast.Node) bool {
+			switch x := n.(type) {
+			case *ast.CallExpr:
+				if id, ok := x.Fun.(*ast.Ident); !ok || id.Name != "len" {
+					pure = false
+				}
+			case *ast.TypeAssertExpr, *ast.IndexExpr:
+				pure = false
+			}
+			return pure
+		})
+		if !pure {
+			return nil
+		}
+		if _, isBin := ast.Unparen(def).(*ast.BinaryExpr); !isBin {
+			if _, isUn := ast.Unparen(def).(*ast.UnaryExpr); !isUn {
+				return nil
+			}
+		}
+		return def
+	}
 	pathsim.DefaultInline = func(p *prog.Prog, fi *prog.FuncInfo) bool { return isNewHelper(p, fi) }
 }
 
@@ -261,4 +296,26 @@ func inspectValue(info *types.Info, e ast.Expr, f func(ast.Node) bool) {
 		})
 	}
 	walk(e, 0)
+}
+
+// derefObj resolves e to the variable it names, following helper parameters to their
+// arguments and plain aliases (`x := y`) but never replacing a variable by the expression
+// that computed it.
+func derefObj(info *types.Info, e ast.Expr) types.Object {
+	for i := 0; i < 4; i++ {
+		id, ok := ast.Unparen(e).(*ast.Ident)
+		if !ok {
+			return nil
+		}
+		next := derefStep(info, id)
+		if nid, ok := next.(*ast.Ident); ok && next != nil {
+			e = nid
+			continue
+		}
+		if o := info.Uses[id]; o != nil {
+			return o
+		}
+		return info.Defs[id]
+	}
+	return prog.IdentObj(info, e)
 }
